@@ -136,3 +136,58 @@ def unstuff_content_lemmas(Obligation):
     ax = {"unstuffed_at_frame": z3.ForAll([a, j, v, kk, i], z3.Implies(j >= kk, L(kk)), patterns=[U(Sx, kk, i)]),
           "raw_length_bound": z3.ForAll([a, kk], z3.Implies(kk >= 0, R(kk)), patterns=[CNT(a, kk)])}
     return obl, ax
+
+# ---- text helpers over byte arrays (P1 / IEC 62056-21)
+bv = z3.BitVec("bv", 8)
+FIDX = z3.RecFunction("first_index_of", BYTE_ARR, BV8, I, I, I)   # first index in [i,n) holding the octet, else n
+z3.RecAddDefinition(FIDX, [a, bv, i, n], z3.If(i >= n, n, z3.If(a[i] == bv, i, FIDX(a, bv, i + 1, n))))
+ALLASCII = z3.RecFunction("all_ascii", BYTE_ARR, I, I, B)         # every octet in [lo,hi) is < 0x80
+z3.RecAddDefinition(ALLASCII, [a, lo, hi], z3.If(hi <= lo, True, z3.And(z3.ULT(a[hi - 1], 0x80), ALLASCII(a, lo, hi - 1))))
+def is_bytes_ws(c): return z3.Or(c == 0x20, z3.And(z3.UGE(c, 0x09), z3.ULE(c, 0x0D)))                    # bytes.lstrip(): ASCII whitespace
+def is_str_ws(c): return z3.Or(c == 0x20, z3.And(z3.UGE(c, 0x09), z3.ULE(c, 0x0D)), z3.And(z3.UGE(c, 0x1C), z3.ULE(c, 0x1F)))   # str.strip() on ASCII text
+LSKIP_B = z3.RecFunction("lskip_bytes_ws", BYTE_ARR, I, I, I)      # first index in [i,n) that is not bytes-whitespace, else n
+z3.RecAddDefinition(LSKIP_B, [a, i, n], z3.If(i >= n, n, z3.If(is_bytes_ws(a[i]), LSKIP_B(a, i + 1, n), i)))
+LSKIP_S = z3.RecFunction("lskip_str_ws", BYTE_ARR, I, I, I)
+z3.RecAddDefinition(LSKIP_S, [a, i, n], z3.If(i >= n, n, z3.If(is_str_ws(a[i]), LSKIP_S(a, i + 1, n), i)))
+RSKIP_S = z3.RecFunction("rskip_str_ws", BYTE_ARR, I, I, I)        # least h in [lo,hi] such that [h,hi) is all str-whitespace
+z3.RecAddDefinition(RSKIP_S, [a, lo, hi], z3.If(hi <= lo, lo, z3.If(is_str_ws(a[hi - 1]), RSKIP_S(a, lo, hi - 1), hi)))
+def is_hex(c): return z3.Or(z3.And(z3.UGE(c, 0x30), z3.ULE(c, 0x39)), z3.And(z3.UGE(c, 0x41), z3.ULE(c, 0x46)), z3.And(z3.UGE(c, 0x61), z3.ULE(c, 0x66)))
+def hexdigit(c): return z3.If(z3.ULE(c, 0x39), z3.BV2Int(c) - 0x30, z3.If(z3.ULE(c, 0x46), z3.BV2Int(c) - 0x41 + 10, z3.BV2Int(c) - 0x61 + 10))
+def is_hex4(arr, l): return z3.And(*[is_hex(arr[l + q]) for q in range(4)])
+def hexval4(arr, l): return ((hexdigit(arr[l]) * 16 + hexdigit(arr[l + 1])) * 16 + hexdigit(arr[l + 2])) * 16 + hexdigit(arr[l + 3])
+# abstract (assumed) library functions: int(text, 16) and the identification-line pattern
+INT16_OK = z3.Function("int16_ok", BYTE_ARR, I, I, B)              # int(text[lo:hi], 16) succeeds
+INT16_VAL = z3.Function("int16_val", BYTE_ARR, I, I, I)            # its value
+IDENT = z3.Function("is_ident_text", BYTE_ARR, I, I, B)            # re match of the identification-line pattern on text[lo:hi]
+
+def text_lemmas(Obligation):
+    obl = []; ax = {}
+    bnd = lambda f, *pre: z3.And(f(*pre, p, n) >= p, f(*pre, p, n) <= n)
+    for nm, f, pre in (("first_index_of", FIDX, (a, bv)), ("lskip_bytes_ws", LSKIP_B, (a,)), ("lskip_str_ws", LSKIP_S, (a,))):
+        obl.append(Obligation(f"lemma.{nm}_bounds#base", [p == n], bnd(f, *pre), use_axioms=False, kind="lemma"))
+        obl.append(Obligation(f"lemma.{nm}_bounds#step", [p < n, z3.And(f(*pre, p + 1, n) >= p + 1, f(*pre, p + 1, n) <= n)], bnd(f, *pre), use_axioms=False, kind="lemma"))
+        ax[nm + "_bounds"] = z3.ForAll(list(pre) + [p, n], z3.Implies(p <= n, bnd(f, *pre)), patterns=[f(*pre, p, n)])
+    rb = lambda h_: z3.And(RSKIP_S(a, lo, h_) >= lo, RSKIP_S(a, lo, h_) <= h_)
+    obl.append(Obligation("lemma.rskip_str_ws_bounds#base", [hi == lo], rb(hi), use_axioms=False, kind="lemma"))
+    obl.append(Obligation("lemma.rskip_str_ws_bounds#step", [hi > lo, rb(hi - 1)], rb(hi), use_axioms=False, kind="lemma"))
+    ax["rskip_bounds"] = z3.ForAll([a, lo, hi], z3.Implies(lo <= hi, rb(hi)), patterns=[RSKIP_S(a, lo, hi)])
+    # what first_index_of finds really holds the octet, and nothing before it does
+    hit = lambda p_: z3.Implies(FIDX(a, bv, p_, n) < n, a[FIDX(a, bv, p_, n)] == bv)
+    obl.append(Obligation("lemma.first_index_of_hit#base", [p >= n], hit(p), use_axioms=False, kind="lemma"))
+    obl.append(Obligation("lemma.first_index_of_hit#step", [p < n, hit(p + 1)], hit(p), use_axioms=False, kind="lemma"))
+    ax["fidx_hit"] = z3.ForAll([a, bv, p, n], hit(p), patterns=[FIDX(a, bv, p, n)])
+    # all_ascii: closed under sub-ranges, and pointwise
+    l2, h2, kq = z3.Ints("l2 h2 kq")
+    Sx = lambda h_: z3.Implies(ALLASCII(a, lo, h_), ALLASCII(a, l2, h_))
+    obl.append(Obligation("lemma.all_ascii_suffix#base", [lo <= l2, hi <= lo], Sx(hi), use_axioms=False, kind="lemma"))
+    obl.append(Obligation("lemma.all_ascii_suffix#step", [lo <= l2, hi > lo, Sx(hi - 1)], Sx(hi), use_axioms=False, kind="lemma"))
+    Px = lambda h_: z3.Implies(ALLASCII(a, l2, h_), ALLASCII(a, l2, h2))
+    obl.append(Obligation("lemma.all_ascii_prefix#base", [hi == h2], Px(hi), use_axioms=False, kind="lemma"))
+    obl.append(Obligation("lemma.all_ascii_prefix#step", [hi > h2, Px(hi - 1)], Px(hi), use_axioms=False, kind="lemma"))
+    Tx = lambda h_: z3.Implies(z3.And(ALLASCII(a, lo, h_), lo <= kq, kq < h_), z3.ULT(a[kq], 0x80))
+    obl.append(Obligation("lemma.all_ascii_pointwise#base", [hi <= lo], Tx(hi), use_axioms=False, kind="lemma"))
+    obl.append(Obligation("lemma.all_ascii_pointwise#step", [hi > lo, Tx(hi - 1)], Tx(hi), use_axioms=False, kind="lemma"))
+    ax["ascii_sub"] = z3.ForAll([a, lo, hi, l2, h2], z3.Implies(z3.And(ALLASCII(a, lo, hi), lo <= l2, h2 <= hi), ALLASCII(a, l2, h2)),
+                                patterns=[z3.MultiPattern(ALLASCII(a, lo, hi), ALLASCII(a, l2, h2))])
+    ax["ascii_pt"] = z3.ForAll([a, lo, hi, kq], Tx(hi), patterns=[z3.MultiPattern(ALLASCII(a, lo, hi), a[kq])])
+    return obl, ax
